@@ -189,6 +189,8 @@ class Gen(object):
         return f
 
     def free_field_name(self, model, pool):
+        if pool is FIELD_NAMES and self.cfg.get('field_names'):
+            pool = self.cfg['field_names']
         used = {f['name'] for f in model['fields']}
         cand = [n for n in pool if n not in used]
         if not cand:
@@ -574,7 +576,7 @@ class Gen(object):
         m, f = rng.choice(cands)
         pool = (M2M_NAMES if f['kind'] == 'ManyToMany' else
                 REL_NAMES if f['kind'] in spec.FK_KINDS else FIELD_NAMES)
-        new = self.free_field_name(m, pool + ['z'])
+        new = self.free_field_name(m, (self.cfg.get('field_names') or pool) + ['z'] if pool is FIELD_NAMES else pool + ['z'])
         if new is None:
             return None
         mut = {'op': 'RenameField', 'model': m['name'], 'old': f['name'],
@@ -822,7 +824,8 @@ class Gen(object):
     def mut_SQLMutation(self, state, app, models, rows):
         tag = self.uniq('sql')
         return {'op': 'SQLMutation', 'tag': tag,
-                'sql': ['SELECT 1 -- %s' % tag]}
+                'sql': ['UPDATE "django_content_type" SET "model" = "model" '
+                        'WHERE 1 = 0 -- %s' % tag]}
 
     # -- sequences ---------------------------------------------------------------
     def gen_sequence(self, state, app, n, rows=None, ops=None):
